@@ -50,6 +50,7 @@ pub fn run_cases(
         let mut finds: Vec<Finding> = Vec::new();
         let mut idx = wk as u64;
         while idx < n {
+            let _case = vh_common::CaseGuard::new(format!("{} case {}", sig_prefix, idx));
             let out = run(&rt, idx, false);
             cov.evaluations += 1;
             cov.events += out.events;
@@ -377,6 +378,7 @@ fn th_sweep_managed(args: &Args, rep: &mut Report, prop: &'static str) {
             while i < n {
                 let sc = &scenarios[i];
                 let t_sc = std::time::Instant::now();
+                let _case = vh_common::CaseGuard::new(format!("th_sweep {}", sc.sig()));
                 let mut out = run_sweep(prop, sc);
                 if std::env::var_os("VERIF_SLOW").is_some() && t_sc.elapsed() > std::time::Duration::from_millis(300) {
                     eprintln!("slow scenario {:?}: {}", t_sc.elapsed(), sc.sig());
@@ -453,6 +455,7 @@ fn th_chaos_managed(args: &Args, rep: &mut Report, prop: &'static str, runs: u64
                 hammer,
             };
             let cfg = if hammer { ChaosCfg { threads: rng.range(4, 24) as usize, ops: rng.range(100, 600) as usize, max_size: rng.range(1, 4) as usize, ..cfg } } else { cfg };
+            let _case = vh_common::CaseGuard::new(format!("th_chaos round {}", i));
             let mut out = run_chaos(prop, cfg, seed.wrapping_mul(7919).wrapping_add(i));
             if hammer {
                 // no trace at full speed: a case is identified by its configuration and what was observed
@@ -513,6 +516,7 @@ fn th_sweep_unmanaged(args: &Args, rep: &mut Report, prop: &'static str) {
             let mut i = wk;
             while i < n {
                 let sc = &scenarios[i];
+                let _case = vh_common::CaseGuard::new(format!("uth_sweep {}", sc.sig()));
                 let mut out = run_usweep(prop, sc);
                 if out.violations.first().map(|v| v.oracle == "stranded_caller").unwrap_or(false) {
                     let again = run_usweep(prop, sc);
@@ -577,6 +581,7 @@ fn th_chaos_unmanaged(args: &Args, rep: &mut Report, prop: &'static str, runs: u
             let max_size = rng.range(0, 4) as usize;
             let with_close = prop == "C12" || rng.chance(1, 10);
             let (threads, ops, max_size) = if hammer { (rng.range(4, 32) as usize, rng.range(100, 800) as usize, rng.range(1, 8) as usize) } else { (threads, ops, max_size) };
+            let _case = vh_common::CaseGuard::new(format!("uth_chaos round {}", i));
             let mut out = run_uchaos(prop, threads, ops, max_size, with_close, seed.wrapping_mul(7919).wrapping_add(i), hammer);
             if hammer {
                 out.trace_hash = vh_common::fnv1a(format!("{}/{}/{}/{}/{}/{}", threads, ops, max_size, out.events, out.end_state, i).as_bytes());
@@ -699,6 +704,7 @@ fn th_race(args: &Args, rep: &mut Report, prop: &'static str, rounds: u64, unman
         let mut i = wk as u64;
         while i < rounds {
             let s = seed.wrapping_mul(104729).wrapping_add(i);
+            let _case = vh_common::CaseGuard::new(format!("{} round {} (seed {})", engine, i, s));
             let out = match std::panic::catch_unwind(|| if unmanaged { th::race::unmanaged_race(prop, s, close) } else { th::race::managed_race(prop, s, close) }) {
                 Ok(o) => o,
                 Err(p) => {
@@ -758,6 +764,7 @@ fn rule_for(prop: &str) -> &'static str {
 fn main() {
     vh_common::install_panic_hook();
     let args = Args::parse();
+    vh_common::install_hang_watchdog(&args.prop);
     if args.prop == "replay" {
         replay(&args);
         return;
